@@ -1405,3 +1405,7 @@ Example gc_strictly_less :
   fst (committed_index true [1;2;3] (acked_list [(1,(1,1));(2,(2,2));(3,(3,2))])) <
   fst (committed_index false [1;2;3] (acked_list [(1,(1,1));(2,(2,2));(3,(3,2))])).
 Proof. vm_compute. reflexivity. Qed.
+
+Lemma committed_index_flag_plain : forall V a, V <> [] ->
+  snd (committed_index false V a) = false.
+Proof. intros V a HV. rewrite (committed_index_plain V a HV). reflexivity. Qed.
